@@ -259,7 +259,7 @@ func stability(list []int, later []int, same []int) input {
 
 // lateKinds: what the history of one child of the late-child family looks like
 // relative to the two parent versions (stamped P1 < P2).
-var lateKinds = []string{"normal", "starts-after-P1", "starts-after-P2", "deleted-between-P1-and-P2", "no-history", "two-versions-same-second-after-P1"}
+var lateKinds = []string{"normal", "starts-after-P1", "starts-after-P2", "deleted-between-P1-and-P2", "no-history", "two-versions-same-second-after-P1", "forward-grouped-with-P1"}
 
 func lateChild(kinds []int) input { return lateChildCommitted(kinds, 0) }
 
@@ -302,6 +302,12 @@ func lateChildCommitted(kinds []int, committed int) input {
 			case "deleted-between-P1-and-P2":
 				ds.Nodes[id] = osm.Nodes{mk(1, d(20+c), true), mk(2, d(140+c), false), mk(3, d(170+c), true), mk(4, d(280+c), true)}
 			case "no-history":
+			case "forward-grouped-with-P1":
+				// first version written by P1's own upload, stamped 10 s after the parent:
+				// only the same-changeset forward grouping (inside the threshold) finds it
+				n1 := mk(1, p1.Add(10*time.Second), true)
+				n1.ChangesetID = 50
+				ds.Nodes[id] = osm.Nodes{n1, mk(2, d(150+c), true), mk(3, d(255+c), true)}
 			case "two-versions-same-second-after-P1":
 				ds.Nodes[id] = osm.Nodes{mk(1, d(30+c), true), mk(2, d(135), true), mk(3, d(135), true), mk(4, d(290+c), true)}
 			}
